@@ -273,7 +273,7 @@ class AbstractDateTime(AnyAtomicType):
             raise TypeError("wrong type %r for operand %r" % (type(other), other))
 
         if self._year != year:
-            if abs(self._year - year) > 1 or not isinstance(other, AbstractDateTime) or \
+            if abs(self._year - year) > 2 or not isinstance(other, AbstractDateTime) or \
                     self._dt.tzinfo is dt.tzinfo:
                 return op(self._year, year)
             # Adjacent years and different timezones: compare the positions in the timeline
